@@ -56,3 +56,18 @@ def sanitizer_reports(stderr):
                 break
         out.append((re.sub(r"0x[0-9a-f]+", "0x..", re.sub(r"==\d+==", "", head))[:160], top))
     return out
+
+
+PLAIN_C_FLAGS = ["-std=gnu99", "-O0", "-g", "-w"]
+PLAIN_CXX_FLAGS = ["-std=c++17", "-O0", "-g", "-w"]
+
+
+def valgrind_run(path, stdin_text, cwd, args=(), timeout=1800):
+    """Runs an UNSANITIZED binary under valgrind memcheck (uninitialised-value use, invalid
+    reads/writes that ASan's red zones miss).  Returns (rc, stdout, stderr); rc 99 = memcheck error."""
+    cmd = ["valgrind", "--tool=memcheck", "--error-exitcode=99", "--quiet", "--leak-check=no", "--track-origins=yes", path] + list(args)
+    try:
+        p = subprocess.run(cmd, input=stdin_text, cwd=cwd, capture_output=True, text=True, timeout=timeout, errors="replace")
+    except subprocess.TimeoutExpired as e:
+        return None, (e.stdout or ""), "TIMEOUT"
+    return p.returncode, p.stdout, p.stderr
